@@ -1,5 +1,5 @@
 import json, os
-import codec, httpdrv, rootmode, anymode
+import codec, httpdrv, rootmode, roothttp, anymode
 from codecmode import MODELLED
 from generic import run_check
 from lib import sh, env_go, Broken
@@ -35,6 +35,8 @@ def main(tier, seed, replay):
         anymode.any_post(state)(run, rep, out)
         # ROOT module generation: the same mutated documents against the root readers / root bindings
         rootmode.run_root(run, "c06", tier, seed)
+        # ... and the lenient / strict generated client of the root generator
+        roothttp.run_root(run, "c06http", tier, seed)
 
     codec.write_fam_env()
     mods = ["Props.C06"]
@@ -48,7 +50,12 @@ def main(tier, seed, replay):
         prop_module=mods,
         driver="codecdrv", build=build, post=post,
         corr_name="corr:missing-fields (model decoders vs the readers on mutated documents: error class, field set, partial value)",
-        trusted=MODELLED + anymode.ANY_TRUSTED + ["the generated client (lenient / strict) is decided by the property oracle on the implementation"],
+        trusted=MODELLED + anymode.ANY_TRUSTED + ["the generated client (lenient / strict) is decided by the property oracle on the implementation",
+            "readers WITH excluded fields (exclusion stream of mode c06): the expected missing set is computed by an independent oracle (missingUnder) and the "
+            "cases are evaluated with the model's excl / ignore parameters; the untyped reader with excluded fields is decided by the oracle only. The model "
+            "(Codec/Decode.v lit_value) decodes a default literal under the reader's own exclusion spec whereas the generated populateLocalDefaultValues "
+            "uses a fresh reader: the two differ only when a directive matches a path inside a default literal relative to the literal's root, and "
+            "specs whose first segment is an object key of a default literal reachable from the type are therefore not generated"],
         assume=anymode.ANY_ASSUME,
         coqchk_modules=["GR." + m for m in mods],
     )
